@@ -392,7 +392,7 @@ PROPS["C19"] = {
             "non-trivial = RelevantOnly or a ctl switch or hostile bytes logged or log/audit flags that differ",
     "essential": {"all": ["audit:On", "audit:Off", "audit:RelevantOnly", "records:0", "records:1", "format:JSON", "format:Native", "format:OCSF", "format:JsonLegacy",
                           "ctl-auditEngine", "ctl-auditLogParts:+", "ctl-auditLogParts:-", "interrupted", "would-be-interruption-status", "log-and-audit-flags-differ",
-                          "hostile-bytes-logged", "multi-value-rule", "concurrent:Serial/JSON", "concurrent:Serial/Native", "concurrent:Concurrent/JSON", "concurrent:HTTPS/JSON", "concurrent:HTTPS/Native", "after-another-transaction"]},
+                          "hostile-bytes-logged", "multi-value-rule", "concurrent:Serial/JSON", "concurrent:Serial/Native", "concurrent:Concurrent/JSON", "concurrent:HTTPS/JSON", "concurrent:HTTPS/Native", "after-another-transaction", "response-body-reaches-its-limit"]},
     "assumptions": COMMON_ASSUME + [
         "ProcessLogging is called exactly once per transaction (precondition of the statement); RelevantOnly is always configured with a pattern",
         "native records are delimited by their own random boundary id: logged data that merely looks like a boundary is content",
